@@ -42,6 +42,16 @@ Proof.
 Qed.
 Print Assumptions C13_filter_independent.
 
+(* a FROM clause nested in another query (right operand of IN) derives its table from the table
+   already derived for the enclosing query: update() sets all three qualifiers, the absent ones
+   to None, so nothing of the enclosing OPEN / CLOSE / CLEAR is inherited *)
+Theorem C13_nested_from_independent : forall (E : Type) f_open f_close f_clear (t : table E) o1 c1 r1 o2 c2 r2,
+  table_update E (table_update E t o1 c1 r1) o2 c2 r2 = table_update E t o2 c2 r2 /\
+  table_prepare E f_open f_close f_clear (table_update E (table_update E t o1 c1 r1) o2 c2 r2)
+  = prepare E f_open f_close f_clear o2 c2 r2 (tb_entries E t).
+Proof. intros. split; reflexivity. Qed.
+Print Assumptions C13_nested_from_independent.
+
 Theorem C13_close_before_open_rejected : forall d e, e < d ->
   check_dates (Some d) (Some (CloseOn e)) = FromCompilationError.
 Proof. intros d e H. unfold check_dates. destruct (Z.ltb_spec e d); [reflexivity | exfalso; apply (Z.lt_irrefl d); apply (Z.le_lt_trans _ e); assumption]. Qed.
